@@ -31,6 +31,7 @@ type Model struct {
 	Idx    []IndexSpec
 	Sorted []SortSpec
 	Trig   []TrigSpec
+	Focus  map[uint32]bool // dense layouts: the rows whose values are dumped (nil = all)
 }
 
 func newModel() *Model {
@@ -66,7 +67,7 @@ func (m *Model) hasCol(name string) bool {
 }
 
 func (m *Model) Clone() *Model {
-	n := &Model{KeyCol: m.KeyCol, Live: make(map[uint32]bool, len(m.Live)), Cells: make(map[string]map[uint32]Val, len(m.Cells))}
+	n := &Model{KeyCol: m.KeyCol, Live: make(map[uint32]bool, len(m.Live)), Cells: make(map[string]map[uint32]Val, len(m.Cells)), Focus: m.Focus}
 	n.Cols = append(n.Cols, m.Cols...)
 	n.Idx = append(n.Idx, m.Idx...)
 	n.Sorted = append(n.Sorted, m.Sorted...)
@@ -136,12 +137,13 @@ type Write struct {
 
 // Op is one client operation inside a transaction.
 type Op struct {
-	T    string  `json:"t"`             // ins | at | del | inskey | upskey | qkey | delkey
-	Ref  int     `json:"ref,omitempty"` // at/del: >0 means "the row inserted by the (Ref-1)-th op of this transaction"
-	Off  uint32  `json:"off,omitempty"`
-	Key  string  `json:"key,omitempty"`
-	W    []Write `json:"w,omitempty"`
-	Fail bool    `json:"fail,omitempty"` // the row callback returns an error after buffering its writes
+	T       string  `json:"t"`             // ins | at | del | inskey | upskey | qkey | delkey
+	Ref     int     `json:"ref,omitempty"` // at/del: >0 means "the row inserted by the (Ref-1)-th op of this transaction"
+	Off     uint32  `json:"off,omitempty"`
+	Key     string  `json:"key,omitempty"`
+	W       []Write `json:"w,omitempty"`
+	Fail    bool    `json:"fail,omitempty"`    // the row callback returns an error after buffering its writes
+	Swallow bool    `json:"swallow,omitempty"` // the body ignores that error and carries on (only in transactions that end in an error)
 
 	// filled in by the executor
 	Done    bool   `json:"done,omitempty"`   // the operation was issued
@@ -189,6 +191,9 @@ func (o Op) String() string {
 	}
 	if o.Fail {
 		s += " FAIL"
+	}
+	if o.Swallow {
+		s += "(ignored)"
 	}
 	if o.HasOff {
 		s += fmt.Sprintf(" ->row %d", o.GotOff)
@@ -283,6 +288,9 @@ func (m *Model) Apply(ops []Op) map[string][]TrigEvent {
 		case "ins", "inskey", "upskey", "at", "qkey":
 			if o.T == "ins" || o.Created {
 				m.Live[off] = true
+				if m.Focus != nil {
+					m.Focus[off] = true
+				}
 			}
 			for wi, w := range o.W {
 				noop := wi < len(o.NoOpW) && o.NoOpW[wi]
